@@ -20,6 +20,8 @@ def panic_sites(body, skip_macros=()):
         if b.cleanup: continue
         t = b.term
         if t.kind == "assert":
+            # pointer alignment/null checks inserted by debug builds are not input-dependent
+            if str(t.assert_kind) in ("other", "None") or "isaligned" in str(t.assert_kind) or "ull" in str(t.assert_kind)[:5]: continue
             add("assert", str(t.assert_kind), t)
         elif t.kind == "call" and not t.callee.indirect:
             c = t.callee
